@@ -57,9 +57,9 @@ Proof. cbn [enc]. unfold eapp, ebind. destruct (enc c t v); try reflexivity. now
 
 (* what A produces decodes as B to the corresponding value *)
 Theorem like_decodes a b v bs known rest :
-  like spec_c a b -> nobits b = true -> wf_ty b = true -> wf b v = true -> enc_spec a v = EOk bs ->
+  like spec_c a b -> wf_ty b = true -> wf b v = true -> enc_spec a v = EOk bs ->
   runo (dec b) known (bs ++ rest) = OOk (canon b v) rest.
 Proof.
-  intros Hl Hb Ht Hw He. apply roundtrip; auto.
+  intros Hl Ht Hw He. apply roundtrip; auto.
   change (enc spec_c a v = EOk bs) in He. change (enc spec_c b v = EOk bs). now rewrite <- (Hl v).
 Qed.
